@@ -8,15 +8,16 @@ import (
 
 // Profile tunes the generator (swarm-style: the driver varies it per run).
 type Profile struct {
-	MaxStmts   int
-	MaxDepth   int
-	JumpW      int  // weight of defer/return/raise statements inside bodies (0..10)
-	Thoughtful bool // generate `~` chains (handlers)
-	MultiKw    bool // several keyword arguments carrying slots in one call
-	TopDefer   bool // defer at program level
-	ChainW     int  // weight of chain calls
-	LitW       int  // weight of container literals
-	Natural    bool // occasionally an expression the interpreter itself fails on
+	MaxStmts    int
+	MaxDepth    int
+	JumpW       int  // weight of defer/return/raise statements inside bodies (0..10)
+	Thoughtful  bool // generate `~` chains (handlers)
+	MultiKw     bool // several keyword arguments carrying slots in one call
+	TopDefer    bool // defer at program level
+	ChainW      int  // weight of chain calls
+	LitW        int  // weight of container literals
+	Natural     bool // occasionally an expression the interpreter itself fails on
+	VarCallArgs bool // variable calls written with an argument list: recv.^f(args)
 }
 
 // DefaultProfile is the all-round profile.
@@ -512,6 +513,18 @@ func (g *G) anyExpr(depth int, role string) *N {
 	if g.p.ChainW > 0 && g.noBrace == 0 && g.t.Chance(1, 14) {
 		return g.native(depth-1, false)
 	}
+	if g.p.VarCallArgs && g.t.Chance(1, 10) {
+		for _, f := range g.funcs {
+			if f.np == 1 {
+				c := &N{K: KVarC, A: g.intExpr(depth-1, "chain/recv"), Str: f.name, Chain: Chain{Main: '.'}}
+				if g.t.Chance(1, 3) {
+					c.Chain.Arg = g.intExpr(depth-1, "chain/chainarg")
+				}
+				g.callArgs(c, 1+g.t.Intn(2), f.kw, depth-1, true)
+				return c
+			}
+		}
+	}
 	switch g.t.Pick(6, lw, lw, lw/2, lw/2, lw/2, 2, g.p.ChainW, 2) {
 	case 0:
 		return g.intExpr(depth, role)
@@ -709,7 +722,11 @@ func (g *G) scalarChain(depth int, needInt bool, role string) *N {
 	case 1:
 		for _, f := range g.funcs {
 			if f.np == 1 && (!needInt || f.retInt) {
-				return &N{K: KVarC, A: recv, Str: f.name, Chain: Chain{Main: '.', Add: add}}
+				c := &N{K: KVarC, A: recv, Str: f.name, Chain: Chain{Main: '.', Add: add}}
+				if g.p.VarCallArgs && !needInt && g.t.Chance(1, 3) {
+					g.callArgs(c, 1+g.t.Intn(2), f.kw, depth, true)
+				}
+				return c
 			}
 		}
 		fallthrough
